@@ -4,6 +4,7 @@ rule set did not cover."""
 from __future__ import annotations
 
 import ast
+import re
 from typing import Dict, List, Optional, Set, Tuple
 
 from ..cfg import describe_path
@@ -19,7 +20,7 @@ def _raises_unique(node: ast.AST) -> bool:
     return any(isinstance(x, ast.Raise) and raised_class(x) == "UniqueConstraintError" for x in ast.walk(node))
 
 
-@rule("UNIQ-SCOPE", ["C03"], floor=2, section="3.1+")
+@rule("UNIQ-SCOPE", ["C03", "C01"], floor=2, section="3.1+")
 def uniq_scope(ctx: Ctx) -> List[Ob]:
     """a sibling-uniqueness scan that runs for several nodes scans the siblings of *each* of them (the scanned list is derived from the outer loop variable), and compares stored data_ids of raw parent links (not the None-mapping `parent` property)"""
     obs: List[Ob] = []
@@ -76,6 +77,10 @@ def uniq_scope(ctx: Ctx) -> List[Ob]:
             q = next(iter(qs))
             used = {x.id for x in ast.walk(lp.iter) if isinstance(x, ast.Name)}
             okq = q in used
+            if not okq and not any(isinstance(x, ast.Attribute) and x.attr in ("_parent", "parent") for x in ast.walk(lp.iter)):
+                # the list walked is some node's *own children* (a parent-side scan that merely leaves one child out), not the
+                # sibling list of another node
+                continue
             obs.append(ctx.ob("UNIQ-SCOPE", ["C03"], f, f"sibling scan that excludes `{q}` walks `{q}`'s own siblings ({f.qualname})", lp, okq,
                               "" if okq else f"the scan leaves out `{q}` but walks `{norm(lp.iter)}`: for any `{q}` other than the one that list belongs to, the wrong parent's "
                               "children are checked and a real conflict below its own parent is accepted"))
@@ -496,7 +501,7 @@ def _cache_findings(ctx: Ctx, new_attr) -> List[tuple]:
     return out
 
 
-@rule("CACHE-INVAL", ["C01", "C02", "C03", "C04", "C05", "C06", "C07", "C08", "C09", "C10", "C11", "C12", "C14", "C15", "C16", "C17", "C19", "C20"], floor=1, section="3.6+")
+@rule("CACHE-INVAL", ["C01", "C02", "C03", "C04", "C05", "C06", "C07", "C08", "C09", "C10", "C11", "C12", "C13", "C14", "C15", "C16", "C17", "C19", "C20"], floor=1, section="3.6+")
 def cache_inval(ctx: Ctx) -> List[Ob]:
     """new state that memoises a computed value (an attribute the reference tree does not have, filled and read back by the same function) is reset wherever a field that the computation reads is written, on the same object; a memoised answer that survives a mutation is a stale answer"""
     from ..known_funcs import KNOWN_ATTRS
@@ -566,7 +571,7 @@ RET_USED = {
 }
 
 
-@rule("RET-USED", ["C05", "C06", "C08", "C12", "C14", "C17"], floor=7, section="3.6+")
+@rule("RET-USED", ["C01", "C02", "C03", "C04", "C05", "C06", "C07", "C08", "C09", "C10", "C11", "C12", "C13", "C14", "C15", "C16", "C17", "C19", "C20"], floor=7, section="3.6+")
 def ret_used(ctx: Ctx) -> List[Ob]:
     """the result of call_mapper / call_predicate is used (assigned, passed on, returned, tested) at every call site: a call whose result is dropped ignores what the user's callback answered"""
     from .own import family_props
@@ -617,4 +622,209 @@ def enum_pos(ctx: Ctx) -> List[Ob]:
     obs.append(ctx.ob("ENUM-POS", ["C12", "C05"], f, "every round of the numbering loop emits one entry", lp, ok,
                       "" if ok else "a round of the loop can end without a yield while the position counter goes on: every parent / clone position after the "
                       "skipped node is too high (load() raises KeyError or hangs branches below the wrong parent)", describe_path(p) if p else None))
+    return obs
+
+
+# ----------------------------------------------------------------- COPY-ORDER
+@rule("COPY-ORDER", ["C07"], floor=1, section="3.6+")
+def copy_order(ctx: Ctx) -> List[Ob]:
+    """a loop that copies a child list in forward order appends: `add_child(child, before=E)` inside such a loop is discharged for E absent / None, violated for E = True, an index or a caller-supplied parameter (every copy is put in front of the previous one: the copies arrive in reverse order), undecided for anything else"""
+    obs: List[Ob] = []
+    m = ctx.model
+    for f in m.all_funcs():
+        if f.module not in ("node", "tree", "typed_tree") or f.name not in ("copy_to", "_add_from", "_add_filtered", "copy", "add_child", "add"):
+            continue
+        params = set(f.positional_params()) | {a.arg for a in f.node.args.kwonlyargs}
+        for lp in iter_own(f.node):
+            if not isinstance(lp, ast.For) or not isinstance(lp.target, ast.Name):
+                continue
+            it = norm(lp.iter)
+            if not re.search(r"\.(_?children)\b", it):
+                continue
+            backwards = it.startswith("reversed(") or "[::-1]" in it
+            for c in ast.walk(lp):
+                if not (isinstance(c, ast.Call) and isinstance(c.func, ast.Attribute) and c.func.attr in ("add_child", "add", "prepend_child")):
+                    continue
+                if not any(isinstance(x, ast.Name) and x.id == lp.target.id for a in c.args[:1] for x in ast.walk(a)):
+                    continue
+                bef = [k.value for k in c.keywords if k.arg == "before"]
+                e = bef[0] if bef else None
+                if c.func.attr == "prepend_child":
+                    e = ast.Constant(True)
+                if e is None or (isinstance(e, ast.Constant) and e.value is None):
+                    ok = True if not backwards else False
+                elif isinstance(e, ast.Constant) and (e.value is True or isinstance(e.value, int)):
+                    ok = backwards and e.value is True
+                elif isinstance(e, ast.Name) and e.id in params:
+                    # (add_child(<tree>, before=...) reverses the top nodes first when `before` prepends: any reversal in sight -> not judged here)
+                    src_ = ast.unparse(f.node)
+                    ok = None if backwards or "reverse" in src_ or "[::" in src_ else False
+                else:
+                    ok = None
+                obs.append(ctx.tri("COPY-ORDER", ["C07"], f, f"copies made in the child loop of {f.qualname} arrive in source order", c, ok,
+                                   f"`{norm(c)}` runs once per child of `{it}`: with before={norm(e) if e is not None else 'None'} "
+                                   + ("every copy lands in front of the previous one, so the children arrive in reverse order (before=True / an index)" if ok is False and not (backwards and e is None)
+                                      else "the loop runs backwards but appends" if ok is False else "the position argument is not a constant or a parameter")))
+    return obs
+
+
+# ----------------------------------------------------------------- SUPER-KIND
+@rule("SUPER-KIND", ["C15"], floor=1, section="3.6+")
+def super_kind(ctx: Ctx) -> List[Ob]:
+    """a kind-aware TypedNode query that hands its any-kind case to the base class (`super().M()`) gets the untyped answer only if Node.M() does not call back into a query that TypedNode overrides with `any_kind=False` as default: such a call is dispatched to the override and filters by kind again"""
+    obs: List[Ob] = []
+    m = ctx.model
+    over = {}
+    for f in m.all_funcs():
+        if f.cls == "TypedNode" and "any_kind" in f.param_names():
+            over[f.name] = f
+
+    def kind_calls(base: Func, depth: int, seen: set) -> list:
+        out = []
+        for c in ast.walk(base.node):
+            if isinstance(c, ast.Call) and isinstance(c.func, ast.Attribute) and isinstance(c.func.value, ast.Name) and c.func.value.id == "self":
+                nm = c.func.attr
+                if nm in over and not any(k.arg == "any_kind" or k.arg is None for k in c.keywords):
+                    out.append((base, c))
+                elif nm not in over and depth > 0 and nm not in seen:
+                    g = m.func(f"Node.{nm}", required=False)
+                    if g is not None:
+                        out += kind_calls(g, depth - 1, seen | {nm})
+        return out
+
+    for f in over.values():
+        for c in iter_own(f.node):
+            if not (isinstance(c, ast.Call) and isinstance(c.func, ast.Attribute) and isinstance(c.func.value, ast.Call)
+                    and norm(c.func.value.func) == "super"):
+                continue
+            base = m.func(f"Node.{c.func.attr}", required=False)
+            if base is None:
+                obs.append(ctx.tri("SUPER-KIND", ["C15"], f, f"{f.qualname} delegates to the base class", c, None, f"Node.{c.func.attr} not found"))
+                continue
+            hits = kind_calls(base, 1, {c.func.attr})
+            obs.append(ctx.tri("SUPER-KIND", ["C15"], f, f"the base-class answer {f.qualname} delegates to (`{norm(c)}`) is kind-agnostic", c, not hits,
+                               "" if not hits else f"{hits[0][0].qualname} calls `{norm(hits[0][1])}`, which a typed node dispatches to TypedNode.{hits[0][1].func.attr} "
+                               "(any_kind=False by default): the any-kind answer is filtered by kind after all"))
+    return obs
+
+
+# ----------------------------------------------------------------- PRED-TEST
+@rule("PRED-TEST", ["C08"], floor=3, section="3.8+")
+def pred_test(ctx: Ctx) -> List[Ob]:
+    """the filter family agrees on what "no predicate" means: an entry point that refuses only `predicate is None` lets a falsy callable through, so no function behind it may decide by truthiness (`if predicate:`) whether to filter - it would copy / keep everything"""
+    obs: List[Ob] = []
+    m = ctx.model
+    fam = [f for f in m.all_funcs() if f.module in ("node", "tree", "typed_tree") and "predicate" in f.param_names()]
+
+    def tests(f: Func):
+        out = []
+        for n in iter_own(f.node):
+            t = n.test if isinstance(n, (ast.If, ast.IfExp, ast.While, ast.Assert)) else None
+            if t is None:
+                continue
+            parts = [t]
+            while parts:
+                x = parts.pop()
+                if isinstance(x, ast.BoolOp):
+                    parts += x.values
+                elif isinstance(x, ast.UnaryOp) and isinstance(x.op, ast.Not):
+                    parts.append(x.operand)
+                elif isinstance(x, ast.Name) and x.id == "predicate":
+                    out.append(("truthy", n))
+                elif isinstance(x, ast.Compare) and norm(x.left) == "predicate" and isinstance(x.ops[0], (ast.Is, ast.IsNot)) and norm(x.comparators[0]) == "None":
+                    out.append(("none", n))
+        return out
+
+    alltests = [(f, k, n) for f in fam for k, n in tests(f)]
+    truthy = [(f, n) for f, k, n in alltests if k == "truthy"]
+    for f, k, n in alltests:
+        body = list(f.node.body)
+        after = body[body.index(n) + 1:body.index(n) + 2] if n in body else []
+        refuses = isinstance(n, ast.If) and (any(isinstance(x, ast.Raise) for st in n.body + n.orelse for x in ast.walk(st))
+                                             or any(isinstance(st, ast.Raise) for st in after))
+        if not refuses:
+            continue
+        # functions the predicate is handed on to (by name, through the family, two levels)
+        reach, frontier = {f.name}, [f]
+        for _ in range(3):
+            nxt = []
+            for g in frontier:
+                for c in ast.walk(g.node):
+                    if isinstance(c, ast.Call) and isinstance(c.func, ast.Attribute) and c.func.attr not in reach \
+                            and any(k.arg == "predicate" for k in c.keywords) | any(isinstance(a_, ast.Name) and a_.id == "predicate" for a_ in c.args):
+                        reach.add(c.func.attr)
+                        nxt += [h for h in fam if h.name == c.func.attr]
+            frontier = nxt
+        others = [(g, x) for g, x in truthy if x is not n and g.name in reach]
+        ok = not (k == "none" and others)
+        obs.append(ctx.tri("PRED-TEST", ["C08"], f, f"{f.qualname} refuses a missing predicate the way the functions behind it test for one", n, ok,
+                           "" if ok else f"only `None` is refused here, but {others[0][0].qualname} decides with `{norm(others[0][1].test)[:60]}` (truthiness): "
+                           "a callable predicate that is falsy (defines __bool__ / __len__) passes the entry and is then treated as no predicate - everything is kept"))
+    return obs
+
+
+# ----------------------------------------------------------------- MEMO-KEY
+_MEMO_CONTROL = """
+def control(rel, memo):
+    for kind, spec in rel.items():
+        try:
+            merged = memo[kind]
+        except KeyError:
+            merged = dict(spec)
+            memo[kind] = merged
+"""
+
+
+def _memo_key_hits(fn: ast.AST) -> list:
+    """(store, loop variable the stored value depends on but the key does not name) for memo tables that outlive a round of a `for a, b in ...` loop"""
+    hits = []
+    args = fn.args
+    outliving = {x.arg for x in args.posonlyargs + args.args + args.kwonlyargs}
+    outliving |= {nm for st in ast.walk(fn) if isinstance(st, (ast.Global, ast.Nonlocal)) for nm in st.names}
+    for lp in ast.walk(fn):
+        if not (isinstance(lp, ast.For) and isinstance(lp.target, ast.Tuple)):
+            continue
+        lv = {x.id for x in ast.walk(lp.target) if isinstance(x, ast.Name)}
+        local_tables = {t.id for st in ast.walk(lp) if isinstance(st, ast.Assign) for t in st.targets if isinstance(t, ast.Name)}
+        assigns = [st for st in ast.walk(lp) if isinstance(st, ast.Assign)]
+        for st in assigns:
+            for t in st.targets:
+                if not (isinstance(t, ast.Subscript) and isinstance(t.value, ast.Name)) or t.value.id in local_tables:
+                    continue
+                tab = t.value.id
+                if tab not in outliving:
+                    continue  # a table built inside one call over one mapping: the key determines the rest of the item
+                reads = [x for x in ast.walk(lp) if isinstance(x, ast.Subscript) and isinstance(x.ctx, ast.Load) and isinstance(x.value, ast.Name) and x.value.id == tab]
+                reads += [x for x in ast.walk(lp) if isinstance(x, ast.Compare) and isinstance(x.ops[0], (ast.In, ast.NotIn)) and norm(x.comparators[0]) == tab]
+                reads += [x for x in ast.walk(lp) if isinstance(x, ast.Call) and norm(x.func) == f"{tab}.get"]
+                if not reads:
+                    continue
+                key = {x.id for x in ast.walk(t.slice) if isinstance(x, ast.Name)}
+                deps = {x.id for x in ast.walk(st.value) if isinstance(x, ast.Name)}
+                for _ in range(6):
+                    for a2 in assigns:
+                        if a2 is st or a2.lineno > st.lineno:
+                            continue
+                        tn = {x.id for t2 in a2.targets for x in ast.walk(t2) if isinstance(x, ast.Name) and isinstance(x.ctx, ast.Store)}
+                        if tn & deps:
+                            deps |= {x.id for x in ast.walk(a2.value) if isinstance(x, ast.Name)}
+                lost = sorted((deps & lv) - key)
+                if lost:
+                    hits.append((st, tab, lost))
+    return hits
+
+
+@rule("MEMO-KEY", ["C20"], floor=1, section="3.6+")
+def memo_key(ctx: Ctx) -> List[Ob]:
+    """a memo table in the generator that outlives one round of a relation loop is keyed by everything its entries were computed from: an entry derived from the loop's spec but stored under the node type alone is reused for the same type under another parent, whose relation spec differs"""
+    obs: List[Ob] = []
+    ctl = _memo_key_hits(ast.parse(_MEMO_CONTROL).body[0])
+    obs.append(ctx.ob("MEMO-KEY", ["C20"], "control:memo_key", "synthetic memo keyed by half of its inputs is detected", None, len(ctl) == 1, "the control example was not reported"))
+    for f in ctx.model.all_funcs():
+        if f.module != "tree_generator":
+            continue
+        for st, tab, lost in _memo_key_hits(f.node) if f.parent is None else []:
+            obs.append(ctx.tri("MEMO-KEY", ["C20"], f, f"memo table `{tab}` in {f.qualname} is keyed by all inputs of its entries", st, False,
+                               f"`{norm(st)[:90]}` stores a value computed from the loop variable(s) {lost} under a key that does not name them: the entry of the first "
+                               "relation that mentions this node type is reused for every other parent type"))
     return obs
